@@ -512,6 +512,8 @@ def _validate(events, tag, cfg="Trace_Keys.cfg", chunk=None):
     # expensive events (scalar multiplications, long Base58 conversions) are spread evenly over the chunks
     ch = chunk or CHUNK[0]
     nch = max(1, -(-len(slim) // ch))
+    if chunk is None and len(slim) > 16:
+        nch = max(16, -(-len(slim) // 400))      # one JVM per core, at most 400 events per JVM
     slim.sort(key=lambda e: (e["id"] % nch, e["id"]))
     return vlib.validate_events("Trace_Keys", slim, cfg=cfg, native=True, chunk=-(-len(slim) // nch) if slim else 1, jobs=16, tag=tag, timeout=3000)
 
